@@ -88,12 +88,61 @@ def lazy_caches(cls):
     return out
 
 
+# wrappers whose result remembers what the wrapped callable computed the first time it saw an argument (shape):
+# jax.jit / eqx.filter_jit bake every closed-over value into the trace as a constant; lru_cache / cache memoise on the arguments only
+MEMO_WRAPPERS = {"jit", "filter_jit", "pmap", "lru_cache", "cache"}
+
+
+def compiled_closures(cls):
+    """[(attribute, sources, defining method, node)]: `self.A = jit(<callable that reads self.X>)` in any method, the
+    constructor included -- the compiled function keeps the value self.X had when it was first traced (memoised)."""
+    out = []
+    seen = set()
+    for c in cls.mro():
+        for m in c.methods.values():
+            if cls.resolve(m.name) is not m or not m.params:
+                continue
+            me = m.params[0]
+            nested = {n.name: n for n in ast.walk(m.node) if isinstance(n, (ast.FunctionDef, ast.AsyncFunctionDef)) and n is not m.node}
+            for st in ast.walk(m.node):
+                if not (isinstance(st, ast.Assign) and isinstance(st.value, ast.Call)):
+                    continue
+                tg = [t for t in st.targets if isinstance(t, ast.Attribute) and isinstance(t.value, ast.Name) and t.value.id == me]
+                if not tg:
+                    continue
+                call = st.value
+                # jit(f), jit(f, static_argnums=..), lru_cache(maxsize=..)(f), partial(jit, ..)(f)
+                heads = []
+                f = call
+                while isinstance(f, ast.Call):
+                    heads.append(f)
+                    f = f.func
+                nm = f.attr if isinstance(f, ast.Attribute) else getattr(f, "id", None)
+                if nm == "partial" and heads and heads[-1].args:
+                    a0 = heads[-1].args[0]
+                    nm = a0.attr if isinstance(a0, ast.Attribute) else getattr(a0, "id", None)
+                if nm not in MEMO_WRAPPERS:
+                    continue
+                src = set()
+                for h in heads:
+                    for a in h.args:
+                        if isinstance(a, ast.Name) and a.id in nested:
+                            src |= _self_attrs_read(nested[a.id], me)
+                        else:
+                            src |= _self_attrs_read(a, me)
+                src -= {tg[0].attr}
+                if src and (tg[0].attr, m.ident) not in seen:
+                    seen.add((tg[0].attr, m.ident))
+                    out.append((tg[0].attr, src, m, st))
+    return out
+
+
 def findings(repo, classes):
     """[(class, cache attr, source attr, writer method, writer node, cache-defining method)]"""
     out = []
     n_caches = 0
     for cls in classes:
-        caches = lazy_caches(cls)
+        caches = lazy_caches(cls) + compiled_closures(cls)
         n_caches += len(caches)
         if not caches:
             continue
